@@ -148,6 +148,8 @@ def caller_roundtrip(r, pfx, form, avoid, delims):
             ops.append({"k": "write", "h": h, "tab": tab, "hdr": hdr})
             for _ in range(r.randrange(1, 3)):
                 f = tab["fields"] if chance(r, 0.35) else other_order(tab["fields"])
+                if chance(r, 0.08):
+                    ops.append({"k": "write", "h": h, "tab": {"fields": f, "nrows": 0, "dseed": 1}, "hdr": None})
                 ops.append({"k": "write", "h": h, "tab": {"fields": f, "nrows": draw_nrows(r, small=True),
                                                           "dseed": r.randrange(1 << 30)}, "hdr": None})
             ops.append({"k": "close", "h": h})
@@ -351,6 +353,8 @@ def caller_history(r, pfx, avoid):
                     f = other_order(f)
                 t = chunk(f)
                 wop = {"k": "write", "h": s["h"], "tab": t, "hdr": T.gen_header(r, True) if chance(r, 0.3) else None}
+                if s["fields"] is not None and chance(r, 0.06):
+                    ops.append({"k": "write", "h": s["h"], "tab": dict(t, nrows=0), "hdr": None})     # an empty chunk first
                 nd = nd_of(t)
                 if nd:
                     wop["nd"] = [nd[0], t["nrows"] // nd[0]]
